@@ -25,6 +25,8 @@ CONN = ("attr", SELF, "connReq")
 
 def check(ctx):
     a = ctx.a
+    from .c03 import framing_premise
+    framing_premise(ctx, 'Q0', 'a PINGRESP that is mis-framed is not seen in time and the deadline closes a healthy connection')
     ty = types(a)
     n_ping = 0
     for cls in a.protos:
